@@ -22,9 +22,9 @@ def loop_roles(body):
     roles = {}
     for l, n in body.var_names.items():
         for sh, site, e in q.def_shapes(body, l, {}):
-            if sh == "some(Iterator::next(var:Enumerate<TokenIter>)).1":
+            if sh == "try(Iterator::next(var:Enumerate<TokenIter>)).1":
                 roles[l] = "token"
-            elif sh == "some(Iterator::next(var:Enumerate<TokenIter>)).0":
+            elif sh == "try(Iterator::next(var:Enumerate<TokenIter>)).0":
                 roles[l] = "idx"
     return roles
 
@@ -360,7 +360,7 @@ def _element_closures(ctx, rule, body, a):
     defs = q.def_shapes(cb, 0, {})
     somes = [(sh, site) for sh, site, _ in defs if sh != "Option::None{}"]
     nones = [(sh, site) for sh, site, _ in defs if sh == "Option::None{}"]
-    acc = ["Option::Some{0:%s}" % (c % "some(arg2)") for c in STRING_COPY]
+    acc = ["Option::Some{0:%s}" % (c % "try(arg2)") for c in STRING_COPY]
     ok = len(somes) == 1 and somes[0][0] in acc and len(nones) == 1
     ctx.check(ok, rule, cb.path, "contents:copy", "present contents are copied unchanged, absent contents stay None", detail=str([d[0] for d in defs]))
     if ok:
